@@ -665,7 +665,12 @@ int process_patch(const Options& options)
 
             // Clean up the file if it looks like it was removed.
             // NOTE: we check for file size for the degenerate case that the file is a removal, but has nothing left.
-            if (options.remove_empty_files == Options::OptionalBool::Yes && patch.operation == Operation::Delete) {
+            // NOTE: a patch without any context says the same about the first lines of a file going away
+            //       as about the whole file going away. Only the result tells the two apart.
+            const bool first_hunk_leaves_nothing = !patch.hunks.empty()
+                && patch.hunks.front().new_file_range.start_line == 0
+                && patch.hunks.front().new_file_range.number_of_lines == 0;
+            if (options.remove_empty_files == Options::OptionalBool::Yes && (patch.operation == Operation::Delete || first_hunk_leaves_nothing)) {
                 if (tmp_out_file.size() == 0) {
                     if (!options.dry_run) {
                         // Moving the file to its backup already removes it.
@@ -675,7 +680,7 @@ int process_patch(const Options& options)
                             remove_file_and_empty_parent_folders(output_file);
                     }
                     write_to_file = false;
-                } else {
+                } else if (patch.new_file_path == "/dev/null") {
                     out << "Not deleting file " << output_file << " as content differs from patch\n";
                     had_failure = true;
                 }
